@@ -160,3 +160,10 @@ def c15_reserved_names(sig, case):
 def c15_vector_memory_argument(sig, case):
     """an argument annotated with a non-addressable vector memory (AVX2/AVX512) is emitted as a scalar pointer"""
     return sig.get("monitor") == "gcc" and sig.get("feature") == "vector_memory_argument"
+
+
+def sink_alloc_else_branch(sig, case):
+    """sink_alloc into an if with an else-branch gives the else-branch a renamed allocation
+    but leaves its uses on the old symbol (pinned by tests/golden/test_schedules/
+    test_sink_alloc_when_if_has_else.txt)"""
+    return sig.get("op") == "sink_alloc" and sig.get("monitor") == "validate" and sig.get("kind") == "use_out_of_scope" and _diag(sig).get("oos_binder") == "alloc"
